@@ -707,6 +707,11 @@ class KeychainSqlite3(Keychain):
         if name not in self:
             raise KeyError(f'Identity {Name.to_str(id_name)} does not exist')
         identity = self[name]
+        if kwargs.get('key_id'):
+            # Refuse before the key store is touched: generating the key would replace the private key of the existing one
+            existing = self.tpm.construct_key_name(name, b'', **kwargs)
+            if existing in identity:
+                raise KeyError(f'Key {Name.to_str(existing)} already exists')
         key_name, pub_key = self.tpm.generate_key(name, key_type, **kwargs)
         signer = self.tpm.get_signer(key_name)
         cert_name, cert_data = self_sign(key_name, pub_key, signer)
